@@ -1,5 +1,8 @@
 import OV.Model.C12Autocast
 import OV.Lemmas.C12Autocast
+import OV.Lemmas.C12Rename
+import OV.Lemmas.C12Scope
+import OV.Lemmas.C12Call
 import OV.Gen.C12SchemasOk
 /-!
 # C12 — Python literals are promoted identically by converter, eager mode and graph builder
@@ -11,13 +14,15 @@ namespace OV.Props.C12
 open OV.Autocast
 
 /-- **Translator theorem.**  For every operator schema of the default domain that is effective in some
-opset 13..23 and has an input — as read from /repo's two code paths on this run — the three front ends
-(converter and eager mode on the `OpSignature` reading, the builder on the raw `OpSchema` reading) agree
-with the rule at every argument position (variadic tail included), for every literal of
-`{0, 1, -3, 2.5, -0.0, True, [1,2], [0.5]}` and every sibling configuration (`agree3All`, checked by the
-kernel on the interned shape of the row). -/
+opset 13..23 and has an input — as read from /repo's two code paths on this run, with the schema's own
+type-constraint *strings* — the three front ends (converter and eager mode on the `OpSignature` reading, the
+builder on the raw `OpSchema` reading) agree with the rule at every argument position (variadic tail included),
+for every literal of `{0, 1, -3, 2.5, -0.0, True, [1,2], [0.5]}` and every sibling configuration (`agree3AllG`).
+The kernel evaluates the check on the interned shape of the row (`ishapes_ok`, `decide +kernel`);
+`agree3All_intern` (renaming invariance of the casts, proved) carries it to the string-keyed signatures. -/
 theorem registry_ok :
-    ∀ r ∈ OV.Gen.C12.rows, ∃ s, OV.Gen.C12.shapes[r.shape]? = some s ∧ agree3All s.intern = true := by
+    ∀ r ∈ OV.Gen.C12.rows, ∃ s, OV.Gen.C12.shapes[r.shape]? = some s ∧
+      agree3AllG (s.sig.map SFormal.formal) (s.raw.map SFormal.formal) = true := by
   intro r hr
   have hlt := OV.Gen.C12.rows_indexed r hr
   have hmap : (OV.Gen.C12.shapes.map Shape.intern).length = OV.Gen.C12.ishapes.length := by
@@ -25,9 +30,16 @@ theorem registry_ok :
   rw [List.length_map] at hmap
   have hlt' : r.shape < OV.Gen.C12.shapes.length := by omega
   refine ⟨OV.Gen.C12.shapes[r.shape], by simp [hlt'], ?_⟩
+  rw [← agree3All_intern]
   apply OV.Gen.C12.ishapes_ok
   rw [← OV.Gen.C12.intern_ok]
   exact List.mem_map.mpr ⟨_, List.getElem_mem hlt', rfl⟩
+
+/-- What `registry_ok` gives for one concrete call: for `Add`-shaped rows (two formals sharing `T`) probing position 1
+with the literal `-0.0` beside a FLOAT16 tensor, `agree3G` holds, i.e. all three front ends feed `FLOAT16 -0.0`. -/
+example : agree3G (κ := String) [⟨"T", true, false, true⟩, ⟨"T", true, false, true⟩]
+    [⟨"T", true, false, true⟩, ⟨"T", true, false, true⟩]
+    [.tensor .float16 true, .lit (.s (.f true 0 1))] = true := by decide
 
 /-- `agree3All` is not vacuous: it rejects a schema whose two readings differ in a type variable (the
 builder would read `Add`'s second input as `U`), and one whose variadic flag is read differently. -/
@@ -67,6 +79,46 @@ theorem three_agree {κ : Type} [DecidableEq κ] (fs : List (Formal κ)) (args :
     · exact mapE_ok_map _ _ _ (fun p hp => emitDynamic_eq sa hw p (hr p hp))
     · exact mapE_ok_map _ _ _ (fun p hp => emitBuilder_eq sa p (hr p hp))
 
+/-- Every list literal of the call has elements of one Python type. -/
+def AllHomogeneous (args : List Arg) : Prop := ∀ a ∈ args, ∀ l, a = .lit l → l.homogeneous = true
+
+/-- **three_agree_dtype.**  Without any representability hypothesis — out-of-range integers (D21), float literals that
+are not float32 (D23), huge values — the *element type* still agrees: for every signature and every well-typed
+argument list whose list literals are homogeneous, each of the three front ends either raises `OverflowError`
+(NumPy's conversion of an out-of-range Python number; the converter only for literals beyond INT64) or feeds
+operands whose dtypes are exactly those the rule prescribes (and all three refuse together when there are too many
+arguments).  Homogeneity is forced by D24 (`three_agree_full_refuted_mixed_list`). -/
+theorem three_agree_dtype {κ : Type} [DecidableEq κ] (fs : List (Formal κ)) (args : List Arg)
+    (hwt : WellTyped fs args) (hh : AllHomogeneous args) :
+    ∀ r ∈ [castStatic fs args, castDynamic fs args, castBuilder fs args],
+      r = .error .overflow ∨ dtypes r = dtypes (expected fs args) := by
+  unfold castStatic castDynamic castBuilder expected
+  cases ha : assign fs args with
+  | error e =>
+    intro r hr
+    simp only [List.mem_cons, List.not_mem_nil, or_false, or_self] at hr
+    subst hr; right; rfl
+  | ok sa =>
+    have hw := hwt sa ha
+    have hargs := assignFrom_args fs args 0 sa ha
+    have hp : ∀ p ∈ sa, ∀ l, p.2 = .lit l → l.homogeneous = true := by
+      intro p hp l hl
+      apply hh p.2 _ l hl
+      rw [← hargs]
+      exact List.mem_map.mpr ⟨p, hp, rfl⟩
+    have key : ∀ (f : Slot κ × Arg → Except Err Out), (∀ p ∈ sa, OvOrDt (f p) (emitExpected sa p).dtype?) →
+        mapE f sa = .error .overflow ∨ dtypes (mapE f sa) = dtypes (Except.ok (sa.map (emitExpected sa))) := by
+      intro f hf
+      rcases mapE_dt f (emitExpected sa) sa hf with h | ⟨os, hos, hds⟩
+      · left; exact h
+      · right; rw [hos]; simp only [dtypes, hds]
+    intro r hr
+    simp only [List.mem_cons, List.not_mem_nil, or_false] at hr
+    rcases hr with rfl | rfl | rfl
+    · exact key _ (fun p hp' => (emit_dt sa hw p (hp p hp')).1)
+    · exact key _ (fun p hp' => (emit_dt sa hw p (hp p hp')).2.1)
+    · exact key _ (fun p hp' => (emit_dt sa hw p (hp p hp')).2.2)
+
 /-- `Add(x : FLOAT16, 1)`-shaped witness (two formals sharing `T`). -/
 def sigTT : List (Formal Nat) := [⟨0, true, false, true⟩, ⟨0, true, false, true⟩]
 
@@ -100,6 +152,18 @@ example : castStatic sigTT [.tensor .uint8 true, .lit (.s (.i (-3)))] = .ok [.pa
     ∧ castDynamic sigTT [.tensor .uint8 true, .lit (.s (.i (-3)))] = .error .overflow
     ∧ castBuilder sigTT [.tensor .uint8 true, .lit (.s (.i (-3)))] = .error .overflow := by decide
 
+/-- Non-vacuity of `three_agree_dtype` on D21's witness: the converter answers with dtype UINT8 (value wrapped), the
+other two raise — both allowed by the theorem; the rule's dtype is UINT8. -/
+example : dtypes (castStatic sigTT [.tensor .uint8 true, .lit (.s (.i (-3)))]) = some [some .uint8, some .uint8]
+    ∧ dtypes (expected sigTT [.tensor .uint8 true, .lit (.s (.i (-3)))]) = some [some .uint8, some .uint8]
+    ∧ AllHomogeneous [.tensor .uint8 true, .lit (.s (.i (-3)))] := by
+  refine ⟨by decide, by decide, ?_⟩
+  intro a ha l hl
+  simp only [List.mem_cons, List.not_mem_nil, or_false] at ha
+  rcases ha with rfl | rfl
+  · cases hl
+  · cases hl; decide
+
 /-- Full statement refuted (finding **D23**): `x : DOUBLE + 0.1` — the converter rounds 0.1 to float32 first
 (`via32 = true`), eager mode and the builder convert the Python float directly. -/
 theorem three_agree_value_full_refuted_float :
@@ -121,6 +185,84 @@ theorem three_agree_full_refuted_mixed_list :
   have := (h sigTT [.tensor .int64 true, .lit (.l (.i 1) [.f false 5 2])]
     (wellTyped_one_tensor _ _ _ (by intro d k h; cases h))).2
   revert this; decide
+
+/-! ## Which positional arguments reach `cast_inputs` -/
+
+open OV.Call in
+/-- **positional_inputs_are_prefix.**  For every parameter list of the shape `OpSignature.from_op_schema` builds (inputs —
+optional, required, variadic, in any mix — followed by attributes), every number `n` of positional arguments and both
+settings of `allow_extra_args` (converter: allowed; graph builder: refused): when
+`separate_input_attributes_from_arguments` succeeds, the arguments it hands on as operator inputs are exactly the first
+`m ≤ n` positional arguments, in order — never reordered, skipped or duplicated; whatever follows became attributes or
+was dropped.  So the argument lists over which `three_agree` and `registry_ok` quantify are the lists the front ends
+really see. -/
+theorem positional_inputs_are_prefix (ins attrs : List Param) (hi : ∀ p ∈ ins, p.isInput = true)
+    (ha : ∀ p ∈ attrs, p.isInput = false) (n : Nat) (allowExtra : Bool) (r : Sep)
+    (h : separate (ins ++ attrs) n allowExtra = .ok r) : ∃ m, m ≤ n ∧ r.inputs = List.range m := by
+  unfold separate at h
+  cases hs : sepFrom (ins ++ attrs) 0 n ⟨[], []⟩ with
+  | error e => rw [hs] at h; cases h
+  | ok r0 =>
+    rw [hs] at h
+    obtain ⟨m, hm, hin⟩ := sepFrom_prefix ins attrs 0 n ⟨[], []⟩ r0 hi ha hs
+    have hr : r = r0 := by
+      simp only [] at h
+      by_cases hc : (!allowExtra && !hasVariadic (ins ++ attrs) && decide ((ins ++ attrs).length < n)) = true
+      · rw [if_pos hc] at h; cases h
+      · rw [if_neg hc] at h; cases h; rfl
+    subst hr
+    exact ⟨m, by omega, by simpa [List.range_eq_range'] using hin⟩
+
+open OV.Call in
+/-- Non-vacuity: `Softmax(input; axis)` with two positional arguments → input 0, attribute `axis` := argument 1; a third
+argument is dropped by the converter and refused by the builder; `Concat(inputs…; axis)` takes all positionals as inputs. -/
+example :
+    separate [.input false true, .attr false true] 2 true = .ok ⟨[0], [(1, 1)]⟩ ∧
+    separate [.input false true, .attr false true] 3 true = .ok ⟨[0], [(1, 1)]⟩ ∧
+    separate [.input false true, .attr false true] 3 false = .error .tooMany ∧
+    separate [.input false true, .attr false true] 0 true = .error .missing ∧
+    separate [.input true true, .attr true true] 3 false = .ok ⟨[0, 1, 2], []⟩ := by decide
+
+/-! ## Which named operands the converter CastLikes, across If/Loop scopes -/
+
+open OV.Scope in
+/-- **castable_refines_literal_flag.**  For every instruction sequence (assignments of literals and of tensor
+expressions, uses, entering and leaving then/else blocks and loop bodies with any live outputs, to any nesting depth):
+the converter's bookkeeping — a scope stack of python names and ONE flat, never-shrinking set `_castable` of unique
+value names — answers every "is this operand a polymorphic constant?" question exactly as the specification in
+which each binding simply remembers whether it was bound to a literal.  In particular scopes never hide or leak
+castability: the answer depends only on the visible binding of the name. -/
+theorem castable_refines_literal_flag (prog : List Instr) : (run prog).obs = (runS prog).obs :=
+  (rel_run prog St.init Sp.init rel_init).2.1.symm
+
+open OV.Scope in
+/-- **literal_castable_until_rebound.**  After `a = <literal>` (anywhere, after any prefix), any continuation that does
+not assign `a` again, does not leave a block that outputs `a`, and does not leave more scopes than it entered
+(`safe a 0 is`) — entering arbitrarily many nested If/Loop bodies, binding other names, leaving inner blocks — a use
+of `a` beside a tensor is CastLike'd: the converter answers `true`. -/
+theorem literal_castable_until_rebound (pre is : List Instr) (a : PyName) (hs : safe a 0 is = true) :
+    (run (pre ++ [.bindLit a] ++ is ++ [.use a])).obs.getLast? = some (some true) := by
+  rw [castable_refines_literal_flag]
+  simp only [runS, List.foldl_append, List.foldl_cons, List.foldl_nil]
+  generalize List.foldl stepS Sp.init pre = sp0
+  have h0 : Vis a 0 (stepS sp0 (.bindLit a)).env := by
+    refine ⟨[], (stepS sp0 (.bindLit a)).env, rfl, rfl, (fun _ h => by cases h), ?_⟩
+    simp only [stepS]
+    cases sp0.env with
+    | nil => simp [bindS, lookupS, lookupScopeS]
+    | cons s rest => simp [bindS, lookupS, lookupScopeS]
+  obtain ⟨d', hv⟩ := vis_run a is 0 _ hs h0
+  have hl := vis_lookup a d' _ hv
+  simp only [stepS] at hl ⊢
+  rw [hl]
+  simp
+
+open OV.Scope in
+/-- Non-vacuity: `a = 2; if c: (b = x+x; if d: use a)`, and the counterpart where the inner block rebinds `a`. -/
+example : (run [.bindLit 0, .enter, .bindTensor 1, .enter, .use 0, .exit [], .exit [1], .use 0, .use 1]).obs
+    = [some true, some true, some false] ∧
+    safe 0 0 [.enter, .bindTensor 1, .enter, .use 0, .exit [], .exit [1]] = true ∧
+    (run [.bindLit 0, .enter, .bindTensor 0, .use 0, .exit [0], .use 0]).obs = [some false, some false] := by decide
 
 /-! ## First binding (builder) versus last binding (converter, eager) -/
 
@@ -176,57 +318,28 @@ def castVals (l : Lit) (dt : Option DType) : Except Err (List SVal) :=
 
 /-- **cache_sound (full).**  For the cache as it is since fix F8 (key `(repr(value), dtype)`): for every cache whose
 entries hold the tensors of their own keys (`CacheOk`, an invariant: true of the empty cache and re-established
-here), *every* promotion `(l, dt)` — negative zeros included — is answered with an initializer holding exactly
-the tensor `l` denotes in that dtype (element-wise the same number with the same sign and rounding path), or is
-refused.  Hence two literals share a tensor only if their cast values are equal.  The only hypothesis, `l.WF`
-(denominators of the rational encoding of floats are positive), is about the encoding, not about Python values. -/
+here), *every* promotion `(l, dt)` — negative zeros included, no hypothesis on the literal — that returns an
+initializer returns one holding exactly the tensor `l` denotes in that dtype.  Hence two literals share a tensor
+only if their cast values are equal. -/
 theorem cache_sound (c : Cache) (hc : CacheOk c) (l : Lit) (dt : Option DType) (c' : Cache) (e : Entry)
-    (h : promote c l dt = .ok (c', e)) (hl : l.WF) :
-    valsEqv (.ok e.vals) (castVals l dt) ∧ CacheOk c' := by
-  unfold promote promoteBy at h
-  by_cases ha : builderAccepts l
-  · simp only [ha, Bool.not_true, Bool.false_eq_true, if_false] at h
-    cases hf : c.findBy reprEq l (keyDType l dt) with
-    | some e0 =>
-      rw [hf] at h
+    (h : promote c l dt = .ok (c', e)) :
+    Except.ok e.vals = castVals l dt ∧ CacheOk c' := by
+  cases ha : builderAccepts l with
+  | false => rw [promote_refused c l dt ha] at h; cases h
+  | true =>
+    unfold castVals
+    cases hm : mapE (fun s => npCast s ((keyDType l dt).getD .bool)) l.elems with
+    | error e0 => rw [promote_error c hc l dt ha e0 hm] at h; cases h
+    | ok vs =>
+      obtain ⟨c1, e1, hp, hv, _, hok⟩ := promote_ok c hc l dt ha vs hm
+      rw [hp] at h
       simp only [Except.ok.injEq, Prod.mk.injEq] at h
       obtain ⟨rfl, rfl⟩ := h
-      unfold Cache.findBy at hf
-      have hmem := List.mem_of_find?_eq_some hf
-      have hp := List.find?_some hf
-      simp only [Bool.and_eq_true, beq_iff_eq] at hp
-      obtain ⟨h1, h2, h3⟩ := hc e0 hmem
-      have hd : e0.dtype = (keyDType l dt).getD .bool := by rw [h2, hp.2]
-      refine ⟨?_, hc⟩
-      have := reprEq_cast_same e0.key l ((keyDType l dt).getD .bool) h3 hl hp.1
-      rw [← hd, h1] at this
-      rw [hd] at this
-      exact this
-    | none =>
-      rw [hf] at h
-      cases hm : mapE (fun e => npCast e ((keyDType l dt).getD .bool)) l.elems with
-      | error err => simp [hm] at h
-      | ok vs =>
-        simp only [hm, Except.ok.injEq, Prod.mk.injEq] at h
-        obtain ⟨rfl, rfl⟩ := h
-        refine ⟨?_, ?_⟩
-        · unfold castVals; rw [hm]; exact valsEqv_refl vs
-        · intro e he
-          rcases List.mem_append.mp he with he | he
-          · exact hc e he
-          · simp only [List.mem_singleton] at he
-            subst he
-            exact ⟨hm, rfl, hl⟩
-  · simp [ha] at h
+      exact ⟨by rw [hv], hok⟩
 
 /-- Non-vacuity of `cache_sound`: the empty cache is `CacheOk`, `-0.0` is well formed, and after promoting `0.0` the
 promotion of `-0.0` creates its own initializer holding `-0.0`; `True`, `1`, `1.0` under INT64 are three keys. -/
-example : CacheOk [] ∧ (Lit.s (.f true 0 1)).WF := by
-  refine ⟨?_, ?_⟩
-  · intro e he; cases he
-  intro e he
-  simp only [Lit.elems, List.mem_singleton] at he; subst he
-  simp [Scalar.WF, Scalar.norm]
+example : CacheOk [] := fun e he => by cases he
 
 example :
     (promoteAll [] [(.s (.f false 0 1), none), (.s (.f true 0 1), none)]).map (fun e => (e.name, e.vals))
@@ -243,6 +356,32 @@ distinct `(repr, dtype)` keys never generate the same name. -/
 theorem cache_names_unique (reqs : List (Lit × Option DType)) :
     ((promoteAll [] reqs).map (·.name)).Nodup :=
   (namesOk_promoteAllBy reprEq reprEq_refl_s reqs [] ⟨List.nodup_nil, by simp, by simp⟩).1
+
+/-! ### `_cast_inputs` on a builder with history -/
+
+/-- **builder_calls_are_functions.**  Take any sequence of calls `(signature, arguments)` made one after the other on
+one `GraphBuilder` starting from an empty constant cache — any operators, any opsets, any interleaving, failing
+calls included (they may leave initializers behind).  The operands every call feeds its operator (dtype, rank,
+value — the initializer *names* aside) are exactly those of the cache-free `castBuilder` on that call alone:
+the result is a function of (signature, arguments), i.e. of (op, version, arguments), not of the history. -/
+theorem builder_calls_are_functions {κ : Type} [DecidableEq κ] (calls : List (List (Formal κ) × List Arg)) :
+    (runCalls [] calls).1.map outsOf = calls.map (fun q => castBuilder q.1 q.2) :=
+  (runCalls_spec calls [] (fun e he => by cases he)).1
+
+/-- The same for one further call after an arbitrary history. -/
+theorem builder_history_independent {κ : Type} [DecidableEq κ] (history : List (List (Formal κ) × List Arg))
+    (fs : List (Formal κ)) (args : List Arg) :
+    outsOf (castBuilderC (runCalls [] history).2 fs args).2 = castBuilder fs args :=
+  (castBuilderC_spec _ (runCalls_spec history [] (fun e he => by cases he)).2 fs args).1
+
+/-- Illustration: `Mul(-0.0, 0.0)` after `Add(x, 0.0)` on one builder — the second call reuses `const_0.0_f32` for its
+`0.0`, creates `const_-0.0_f32` for its `-0.0`, and feeds `(-0.0, +0.0)`. -/
+example :
+    (runCalls [] [(sigTT, [.tensor .float true, .lit (.s (.f false 0 1))]),
+                  (sigTT, [.lit (.s (.f true 0 1)), .lit (.s (.f false 0 1))])]).1 =
+      [.ok [⟨.pass .float, none⟩, ⟨.const .float false [.f false 0 1 false], some (.scalar (.f false 0 1) (some .float))⟩],
+       .ok [⟨.const .float false [.f true 0 1 false], some (.scalar (.f true 0 1) (some .float))⟩,
+            ⟨.const .float false [.f false 0 1 false], some (.scalar (.f false 0 1) (some .float))⟩]] := by decide
 
 /-! ### The cache before fix F8 (commit 610a39a) — kept for the record; no tie to the current code -/
 
